@@ -240,3 +240,57 @@ for n in ("second", "first_of_duplicates", "unknown", "big_id"):
       bounds="two index entries, concrete ids per instance (match second / duplicate ids / no match / id >= 2^31), symbolic row contents", encodes=_RR,
       cbmc_args=FS256)
 H("C05", "exd", "c05_pipeline_witness", expect="witness-fail", unwind=18, bounds="assert(false) twin")
+
+# C15 continued: equipment / repository
+for n in ("roundtrip", "injective", "table"):
+    H("C15", "equipment", "c15_slot_abbreviation_" + n, unwind=6, bounds="all 10 slots (pairs for injectivity)",
+      encodes=["equipment::get_slot_abbreviation", "equipment::get_slot_from_abbreviation"])
+H("C15", "equipment", "c15_character_category_tables", unwind=6, bounds="all pairs of the 5 character categories",
+  encodes=["equipment::get_character_category_path", "equipment::get_character_category_abbreviation", "equipment::get_character_category_prefix"])
+for n, t in (("6016", "quick"), ("0000", "quick"), ("9999", "thorough"), ("0907", "thorough")):
+    H("C15", "equipment", "c15_deconstruct_id_" + n, tier=t, unwind=8, timeout=300,
+      bounds="file name cRRRReIIII_sss.EEE: id digits " + n + " and slot concrete, all race digits and all ASCII extension bytes symbolic",
+      encodes=["equipment::deconstruct_equipment_path", "equipment::get_slot_from_abbreviation", "core::str::parse::<i32>"])
+# NOTE: c15_equipment_path_* and c15_filenames_* (harness code kept in harness/equipment.rs, harness/repository.rs) are not
+# registered: every function that goes through format! -- even with fully concrete arguments -- came back without a verdict
+# (900 s / 3000 s caps, measured 2026-09-26); see DESIGN.md.
+H("C15", "equipment", "c15e_pipeline_witness", expect="witness-fail", bounds="assert(false) twin")
+H("C15", "repository", "c15_repository_order_total", unwind=4, bounds="all triples of repository types (Base | Expansion{any i32}) with at most one Base",
+  encodes=["repository::Repository::cmp", "repository::Repository::partial_cmp"])
+H("C15", "repository", "c15_category_table", unwind=14, bounds="all 15 categories", encodes=["repository::Category"])
+H("C15", "repository", "c15_string_to_category_table", unwind=14, bounds="15 documented names + all two-letter lower-case words", encodes=["repository::string_to_category"])
+H("C15", "repository", "c15_platform_strings", unwind=8, bounds="all 5 platforms", encodes=["common::get_platform_string"])
+H("C15", "repository", "c15r_pipeline_witness", expect="witness-fail", bounds="assert(false) twin")
+
+# ================================================================================================
+# C06 / C07 — typed attribute readers / writers (model_file_operations.rs)
+# ================================================================================================
+_HALFSTUB = ["half::binary16::arch::f16_to_f32 / f32_to_f16 (run-time F16C dispatch, inline asm) -> half's own portable *_const conversion"]
+H("C06", "model_ops", "c06_read_byte_float4", unwind=6, bounds="all 2^32 byte quadruples", encodes=["model::MDL::read_byte_float4"])
+H("C06", "model_ops", "c06_read_half4", unwind=6, timeout=300, bounds="all 2^64 inputs (every 16-bit half pattern per component) vs an independent IEEE binary16->binary32 conversion",
+  encodes=["model::MDL::read_half4", "half::f16::to_f32 (portable path)"], stubs=_HALFSTUB)
+H("C06", "model_ops", "c06_read_half2", unwind=6, timeout=300, bounds="all 2^32 inputs", encodes=["model::MDL::read_half2"], stubs=_HALFSTUB)
+H("C06", "model_ops", "c06_read_raw_tuples", unwind=6, bounds="all 16-byte inputs: byte4, single3, single4, unsigned_short4",
+  encodes=["model::MDL::read_byte4", "model::MDL::read_single3", "model::MDL::read_single4", "model::MDL::read_unsigned_short4"])
+H("C06", "model_ops", "c06_read_tangent", unwind=6, bounds="all 2^32 byte quadruples", encodes=["model::MDL::read_tangent"])
+H("C06", "model_ops", "c06_pad_slice", unwind=6, bounds="all float bit patterns", encodes=["model::MDL::pad_slice"])
+H("C06", "model_ops", "c06m_pipeline_witness", expect="witness-fail", bounds="assert(false) twin")
+H("C07", "model_ops", "c07_byte_float4_reencode", unwind=6, timeout=300, bounds="all 256 values per component (2^32 quadruples)",
+  encodes=["model::MDL::read_byte_float4", "model::MDL::write_byte_float4"])
+H("C07", "model_ops", "c07_tangent_reencode", unwind=6, timeout=300, bounds="all 256 values for x,y,z; w in {0,255} (canonical)",
+  encodes=["model::MDL::read_tangent", "model::MDL::write_tangent"])
+H("C07", "model_ops", "c07_half4_reencode", unwind=10, timeout=600, bounds="all pairs of non-NaN half patterns (63488^2), placed in components (0,2) and (1,3)",
+  encodes=["model::MDL::read_half4", "model::MDL::write_half4"], stubs=_HALFSTUB)
+H("C07", "model_ops", "c07_half2_reencode", unwind=10, timeout=600, bounds="all pairs of non-NaN half patterns", encodes=["model::MDL::read_half2", "model::MDL::write_half2"], stubs=_HALFSTUB)
+H("C07", "model_ops", "c07_raw_tuples_reencode", unwind=18, timeout=300, bounds="all 16-byte inputs: single4, single3, byte4 bit-exact",
+  encodes=["model::MDL::read_single4", "model::MDL::write_single4", "model::MDL::read_single3", "model::MDL::write_single3", "model::MDL::read_byte4", "model::MDL::write_byte4"])
+H("C07", "model_ops", "c06m_pipeline_witness", expect="witness-fail", bounds="assert(false) twin")
+
+# ================================================================================================
+# C14 — materials / shader packages
+# ================================================================================================
+H("C14", "cfo", "c14_half_tuples_map", unwind=8, bounds="all 2^48 (u16,u16,u16) triples", encodes=["common_file_operations::read_half1", "read_half2", "read_half3"])
+H("C14", "cfo", "c14_half_tuples_binread", unwind=8, timeout=300, bounds="all 6-byte inputs through the real BinRead impls",
+  encodes=["common_file_operations::Half1/Half2/Half3 as BinRead (br(map))"])
+H("C14", "cfo", "c14_bool_helpers", bounds="all u8 / u16 / bool", encodes=["common_file_operations::read_bool_from", "write_bool_as"])
+H("C14", "cfo", "c14c_pipeline_witness", expect="witness-fail", bounds="assert(false) twin")
